@@ -11,39 +11,30 @@ theorem gen_shouldFingerprint (f : Bool) (t : Nat) : Gen.shouldFingerprint f t =
   first
   | exact rfl
   | (unfold Gen.shouldFingerprint shouldFingerprint hasAll F_SYN F_FIN F_RST
-     simp)
-  | (unfold Gen.shouldFingerprint shouldFingerprint hasAll F_SYN F_FIN F_RST
-     grind)
+     gen_finish)
 
 /-- `valid_for_tcp_fingerprint` -/
 theorem gen_validTcp (f : Bool) (t : Nat) : Gen.validTcp f t = validTcp f t := by
   first
   | exact rfl
   | (unfold Gen.validTcp validTcp F_SYN F_ACK
-     rw [gen_shouldFingerprint])
-  | (unfold Gen.validTcp validTcp F_SYN F_ACK
-     rw [gen_shouldFingerprint]
-     grind)
+     simp only [gen_shouldFingerprint]
+     gen_finish)
 
 /-- `valid_for_uptime_fingerprint` -/
 theorem gen_validUptime (f : Bool) (t : Nat) : Gen.validUptime f t = validUptime f t := by
   first
   | exact rfl
   | (unfold Gen.validUptime validUptime F_SYN F_ACK
-     rw [gen_shouldFingerprint])
-  | (unfold Gen.validUptime validUptime F_SYN F_ACK
-     rw [gen_shouldFingerprint]
-     grind)
+     simp only [gen_shouldFingerprint]
+     gen_finish)
 
 /-- `valid_for_mtu_fingerprint` -/
 theorem gen_validMtu (f : Bool) (t m : Nat) : Gen.validMtu f t m = validMtu f t m := by
   first
   | exact rfl
   | (unfold Gen.validMtu validMtu F_SYN F_ACK
-     rw [gen_shouldFingerprint]
-     simp)
-  | (unfold Gen.validMtu validMtu F_SYN F_ACK
-     rw [gen_shouldFingerprint]
-     grind)
+     simp only [gen_shouldFingerprint]
+     gen_finish)
 
 end P0f
